@@ -176,6 +176,8 @@ func (o op) String() string {
 	switch o.kind {
 	case "open", "change", "openplain":
 		return fmt.Sprintf("%s(u%d,t%d)", o.kind, o.uri, o.text)
+	case "changews":
+		return fmt.Sprintf("change-trailing-blanks(u%d,%q)", o.uri, wsVariants[o.text%len(wsVariants)])
 	case "change2":
 		return fmt.Sprintf("change(u%d,[t%d,t%d])", o.uri, o.text0, o.text)
 	case "symbols":
@@ -184,11 +186,21 @@ func (o op) String() string {
 	return fmt.Sprintf("%s(u%d,p%d)", o.kind, o.uri, o.pos)
 }
 
-func uriOf(i int) string { return fmt.Sprintf("file:///doc%d.num", i) }
+// URIs of several shapes: plain files, opaque (untitled) buffers, the same path with a query
+var uriShapes = []string{"file:///doc0.num", "untitled:Untitled-1", "untitled:Untitled-2", "file:///doc0.num?rev=2", "file:///dir/doc0.num", "file:///doc0.num#frag"}
+
+// uriPerm lets the exhaustive passes use different pairs of URI shapes as documents 0 and 1.
+var uriPerm = []int{0, 1, 2, 3, 4, 5}
+
+func uriOf(i int) string { return uriShapes[uriPerm[i%len(uriShapes)]] }
 
 func params(o op, text func(i int) string, positions [][2]int) (string, any) {
 	td := map[string]any{"uri": uriOf(o.uri)}
 	switch o.kind {
+	case "changews":
+		// the current text of the document with different trailing blanks (or, for a document that
+		// is not open yet, the plain text with them)
+		return "textDocument/didChange", map[string]any{"textDocument": map[string]any{"uri": uriOf(o.uri), "version": 4}, "contentChanges": []any{map[string]any{"text": wsText}}}
 	case "openplain":
 		// the same text on every URI (no version marker)
 		plainText = baseTexts[o.text]
@@ -221,12 +233,16 @@ var baseTexts = []string{
 	"vars { monetary $amt account $dst }\nsend $amt (source = @world destination = $dst)\nset_tx_meta(\"k\", $amt)",
 	"vars { account $dst number $n }\nsend [USD $n] (source = { @a @b } destination = $dst)",
 	"vars { portion $p }\nsend [COIN 10] (source = @world destination = { $p to @x remaining kept })\nset_account_meta(@x, \"p\", $p)",
-	"vars { monetary $amt \nsend $amt (source = @world destination = ", // broken
+	"vars { monetary $amt \nsend $amt (source = @world destination = ",                                    // broken
+	"vars { monetary $amt }\nsend $amt (source = @world destination = @x)\n// a comment on the last line", // a comment only once a newline follows
+	"vars { monetary $amt }\nsend $amt (source = @world destination = ",                                   // error anchored at the end of the text
 }
 
 // positions probed by hover / definition in histories (chosen to fall on variable uses in some
 // version of some text and on nothing in others)
 var plainText string
+var wsText string
+var wsVariants = []string{"", "\n", " ", "\n\n", "\t\n", "\r\n"}
 
 var histPositions = [][2]int{{1, 6}, {2, 6}, {3, 18}, {1, 12}}
 
@@ -261,14 +277,24 @@ func (rn *runner) replay(ops []op, label string) bool {
 			textOf[version] = t
 			return t
 		}
+		if o.kind == "changews" {
+			base, ok := latest[o.uri]
+			if !ok {
+				base = baseTexts[4+o.pos%2]
+			}
+			wsText = strings.TrimRight(base, " \t\r\n") + wsVariants[o.text%len(wsVariants)]
+		}
 		method, p := params(o, tf, histPositions)
 		// what the written text is (the last content change)
 		var written string
-		isWrite := o.kind == "open" || o.kind == "change" || o.kind == "change2" || o.kind == "openplain"
+		isWrite := o.kind == "open" || o.kind == "change" || o.kind == "change2" || o.kind == "openplain" || o.kind == "changews"
 		if isWrite {
 			written = textOf[version]
 			if o.kind == "openplain" {
 				written = plainText
+			}
+			if o.kind == "changews" {
+				written = wsText
 			}
 			latest[o.uri] = written
 			writesSoFar++
@@ -330,6 +356,8 @@ func alphabet() []op {
 			a = append(a, op{kind: "open", uri: u, text: t}, op{kind: "change", uri: u, text: t})
 		}
 		a = append(a, op{kind: "openplain", uri: u, text: 0}, op{kind: "openplain", uri: u, text: 1})
+		a = append(a, op{kind: "openplain", uri: u, text: 4}, op{kind: "openplain", uri: u, text: 5})
+		a = append(a, op{kind: "changews", uri: u, text: 1}, op{kind: "changews", uri: u, text: 0}, op{kind: "changews", uri: u, text: 2, pos: 1})
 		a = append(a, op{kind: "change2", uri: u, text0: 0, text: 1}, op{kind: "change2", uri: u, text0: 2, text: 0}, op{kind: "change2", uri: u, text0: 1, text: 3})
 		for p := 0; p < 2; p++ {
 			a = append(a, op{kind: "hover", uri: u, pos: p}, op{kind: "definition", uri: u, pos: p})
@@ -348,45 +376,53 @@ func runC19(c *fw.Ctx) {
 		maxLen = 4
 	}
 	idx := 0
-	for l := 1; l <= maxLen; l++ {
-		total := 1
-		for i := 0; i < l; i++ {
-			total *= na
-		}
-		for k := 0; k < total; k++ {
-			idx++
-			if !c.Want(idx, fmt.Sprintf("exh/%d/%d", l, k)) {
-				continue
+	perms := [][]int{{0, 1, 2, 3, 4, 5}, {1, 2, 0, 3, 4, 5}, {0, 3, 1, 2, 4, 5}, {0, 5, 1, 2, 3, 4}}
+	for pi, perm := range perms {
+		for l := 1; l <= maxLen; l++ {
+			if pi > 0 && l > 2 {
+				continue // the other URI pairs: exhaustive up to length 2 (longer ones are in the random part)
 			}
-			ops := make([]op, l)
-			x := k
-			writes, lastIsQuery := 0, false
-			for j := 0; j < l; j++ {
-				ops[j] = al[x%na]
-				x /= na
-				if ops[j].kind == "open" || ops[j].kind == "change" || ops[j].kind == "change2" || ops[j].kind == "openplain" {
-					writes++
-					lastIsQuery = false
-				} else {
-					lastIsQuery = true
+			total := 1
+			for i := 0; i < l; i++ {
+				total *= na
+			}
+			for k := 0; k < total; k++ {
+				idx++
+				if !c.Want(idx, fmt.Sprintf("exh/%d/%d/%d", pi, l, k)) {
+					continue
 				}
-			}
-			if !rn.replay(ops, "exhaustive") {
-				return
-			}
-			if writes >= 2 && lastIsQuery {
-				var h []string
-				for _, o := range ops {
-					h = append(h, o.String())
+				uriPerm = perm
+				ops := make([]op, l)
+				x := k
+				writes, lastIsQuery := 0, false
+				for j := 0; j < l; j++ {
+					ops[j] = al[x%na]
+					x /= na
+					if ops[j].kind == "open" || ops[j].kind == "change" || ops[j].kind == "change2" || ops[j].kind == "openplain" || ops[j].kind == "changews" {
+						writes++
+						lastIsQuery = false
+					} else {
+						lastIsQuery = true
+					}
 				}
-				c.Distinct(strings.Join(h, " "))
+				if !rn.replay(ops, "exhaustive") {
+					return
+				}
+				if writes >= 2 && lastIsQuery {
+					var h []string
+					for _, o := range ops {
+						h = append(h, o.String())
+					}
+					c.Distinct(strings.Join(h, " "))
+				}
 			}
 		}
 	}
+	uriPerm = perms[0]
 	if c.Want(0, "exh/done") {
 		c.Count("exhaustive_spaces_completed", 1)
 	}
-	// random long histories over 4 URIs
+	// random long histories over 6 URI shapes
 	n := c.N(600, 20000)
 	for i := 0; i < n; i++ {
 		id := "rand/" + itoa(i)
@@ -398,9 +434,13 @@ func runC19(c *fw.Ctx) {
 		ops := make([]op, l)
 		for j := range ops {
 			o := op{uri: r.Intn(4), text: r.Intn(4), text0: r.Intn(4), pos: r.Intn(len(histPositions))}
-			o.kind = r.Pick("open", "openplain", "change", "change", "change2", "hover", "hover", "definition", "symbols")
+			o.uri = r.Intn(len(uriShapes))
+			o.kind = r.Pick("open", "openplain", "change", "change", "change2", "changews", "changews", "hover", "hover", "definition", "symbols")
 			if o.kind == "openplain" {
-				o.text = r.Intn(2)
+				o.text = []int{0, 1, 4, 5}[r.Intn(4)]
+			}
+			if o.kind == "changews" {
+				o.text = r.Intn(len(wsVariants))
 			}
 			ops[j] = o
 		}
